@@ -235,15 +235,19 @@ int16_t COParaDefault(CO_PARA *pg)
     printf("cb paradef %d\n", gid);
     return 0;
 }
-/* mapped objects larger than 4 bytes are the application's business: this application copies domains to / from the frame */
+/* mapped objects larger than 4 bytes (and of sizes no basic type has, e.g. 3) are the application's business: this application
+ * copies domains and its own user-type objects to / from the frame */
+static int is_usr(CO_OBJ *obj); static uint8_t *usr_val(CO_OBJ *obj);
 void CORpdoWriteData(CO_IF_FRM *f, uint8_t pos, uint8_t size, CO_OBJ *obj)
 {
     printf("cb rpdowr %u %u %x\n", pos, size, obj->Key);
+    if (is_usr(obj)) { uint8_t *v = usr_val(obj); for (uint8_t i = 0; i < size && i < 8 && pos + i < 8; i++) v[i] = f->Data[pos + i]; }
     if (obj->Type == CO_TDOMAIN) { CO_OBJ_DOM *d = (CO_OBJ_DOM *)obj->Data; for (uint8_t i = 0; i < size && i < d->Size && pos + i < 8; i++) d->Start[i] = f->Data[pos + i]; }
 }
 void COTpdoReadData(CO_IF_FRM *f, uint8_t pos, uint8_t size, CO_OBJ *obj)
 {
     printf("cb tpdord %u %u %x\n", pos, size, obj->Key);
+    if (is_usr(obj)) { uint8_t *v = usr_val(obj); for (uint8_t i = 0; i < size && i < 8 && pos + i < 8; i++) f->Data[pos + i] = v[i]; }
     if (obj->Type == CO_TDOMAIN) { CO_OBJ_DOM *d = (CO_OBJ_DOM *)obj->Data; for (uint8_t i = 0; i < size && i < d->Size && pos + i < 8; i++) f->Data[pos + i] = d->Start[i]; }
 }
 
@@ -279,6 +283,8 @@ static CO_ERR usr_write(CO_OBJ *o, CO_NODE *n, void *b, uint32_t s)
     return CO_ERR_NONE;
 }
 static const CO_OBJ_TYPE UsrType = { usr_size, usr_init, usr_read, usr_write, 0 };
+static int is_usr(CO_OBJ *obj) { return obj->Type == &UsrType; }
+static uint8_t *usr_val(CO_OBJ *obj) { return ((USRO *)obj->Data)->val; }
 
 /* --------------------------------------------------------- type name table */
 static const CO_OBJ_TYPE *type_by_name(const char *s)
